@@ -106,6 +106,32 @@ def check(ctx, rep):
                         if any(r in res.reachable_ps([tgt], removed_blocks=[sb]) and
                                r not in res.reachable_ps([0], removed_edges=[(sb, tgt)]) for r in removes):
                             removable.add(name)
+        # release on every path: a one-shot entry that resume() resolves is released whatever resolve() returned (a response that does
+        # not deserialise has consumed the one-shot all the same)
+        rcalls = [bb for bb, t in res.calls('crux_core::bridge::request_serde::ResolveSerialized::resolve')]
+        rets = res.return_blocks()
+        tests = []
+        for sb, st in res.terms('switch'):
+            if any(o.kind == 'rvalue' and o.stmt['rv']['k'] == 'discr' and path_matches(o.stmt['rv']['a'].get('adt'), 'request_serde::ResolveSerialized')
+                   for o in origins(res, st['a'])):
+                tests.append((sb, st))
+
+        def arm_of(st, name):
+            return next((b for v, b in st['arms'] if v == vidx[name]), st['otherwise'])
+        every_path = bool(rcalls)
+        for rb in rcalls:
+            once_feasible = all(rb in res.reachable_ps([arm_of(st, 'Once')], removed_blocks=[sb]) for sb, st in tests if res.dominates(sb, rb) and sb != rb)
+            if not once_feasible:
+                continue  # only Never / Many entries reach this call, and resolve() leaves those as they are (C09 R09.e)
+            consumed = any(res.dominates(r, rb) and r != rb for r in removes)
+            after = [(sb, st) for sb, st in tests if res.dominates(rb, sb) and sb != rb]
+            tested = bool(after) and not any(x in res.reachable_after(rb, removed_blocks=[sb for sb, st in after]) for x in rets)
+            frees = all(not any(x in res.reachable_ps([arm_of(st, 'Never')], removed_blocks=removes) for x in rets) for sb, st in after)
+            every_path = every_path and (consumed or (tested and frees))
+        rep.expect('R13.c', every_path, 'registry|release-on-every-path',
+                   'every path from resolving a one-shot entry to the return passes the Never test that frees it (or the entry was taken out first)',
+                   'ResolveRegistry::resume can return after resolving a one-shot entry without reaching the test that frees it (e.g. `?` on the '
+                   'result of resolve: a response that fails to deserialise leaves the spent entry in the registry for ever)')
         # does register() store every effect's resolver, whatever its state?
         inserts = [bb for bb, t in reg.calls('slab::Slab::insert')]
         unconditional = bool(inserts) and all(r not in reg.reachable([0], removed_blocks=inserts) for r in reg.return_blocks())
